@@ -295,6 +295,19 @@ class Backend(ABC):
             rule.set_conversion_result(finalized_queries)
             rule.set_conversion_states(states)
             if rule._output:
+                if finalized_queries is queries:
+                    # The rule is embedded unfinalized into correlation rules, but it is also emitted
+                    # on its own (generate): what is emitted is finalized like any other rule's query.
+                    return [
+                        self.finalize_query(
+                            rule,
+                            query,
+                            index,
+                            states[index],
+                            output_format or self.default_format,
+                        )
+                        for index, query in enumerate(queries)
+                    ]
                 return finalized_queries
             else:
                 return []
